@@ -11,6 +11,8 @@ import (
 	"strconv"
 	"strings"
 	"time"
+
+	"golang.org/x/tools/go/ssa"
 )
 
 type Finding struct {
@@ -203,7 +205,21 @@ func (e *Engine) cmdCheck(prop, tier, evid, known, replayDir string, replay bool
 		inSet[n] = true
 	}
 	var bindFailures []*Obligation
-	for _, n := range fns {
+	// dependency closure: a function whose contract is applied at a call site of a member is a member too (modular
+	// proofs rest on the callee's contract, so the callee's own obligations belong to the property's check).  Members
+	// added this way bring all their obligations except those that are listed as a known finding of another property
+	// (that property's check reports them; here they remain assumptions and are listed as such).
+	closure := map[string]string{}
+	otherFinding := func(name string) *Finding {
+		for _, f := range findings {
+			if f.Kind == "finding" && f.Property != prop && (baseName(name) == f.Obligation || name == f.Obligation) {
+				return f
+			}
+		}
+		return nil
+	}
+	for fi := 0; fi < len(fns); fi++ {
+		n := fns[fi]
 		fc, err := e.genFunc(n)
 		if err != nil {
 			if (strings.Contains(err.Error(), "unknown identifier") || strings.Contains(err.Error(), "contract expression does not fit the code")) && e.funcs[n] != nil {
@@ -227,14 +243,40 @@ func (e *Engine) cmdCheck(prop, tier, evid, known, replayDir string, replay bool
 		for u := range fc.externs {
 			externs[u] = true
 		}
+		for _, c := range sortedKeys(fc.usedCons) {
+			cc := e.cs.Funcs[c]
+			if inSet[c] || cc == nil || cc.Opts["exclude"] != "" {
+				continue
+			}
+			inSet[c] = true
+			if fn := e.funcs[c]; fn != nil && fn.TypeParams().Len() > 0 && len(fn.TypeArgs()) == 0 {
+				// generic: its instantiations carry the obligations
+				for _, fname := range sortedFuncNames(e.funcs) {
+					if strings.HasPrefix(fname, c+"[") && !inSet[fname] {
+						inSet[fname] = true
+						closure[fname] = n
+						fns = append(fns, fname)
+					}
+				}
+				continue
+			}
+			closure[c] = n
+			fns = append(fns, c)
+		}
 		flt := ""
-		if fc.con != nil {
+		if fc.con != nil && closure[n] == "" {
 			flt = tagFilter(fc.con.Tags, prop)
 		}
 		kept := 0
 		for _, ob := range fc.obls {
 			if ob.Clause != nil && len(ob.Clause.Tags) > 0 && !hasTag(ob.Clause.Tags, prop) {
 				continue
+			}
+			if closure[n] != "" {
+				if f := otherFinding(ob.Name); f != nil {
+					e.assume("%s: relies on %s, a known finding of %s (reported by that property's check)", prop, ob.Name, f.Property)
+					continue
+				}
 			}
 			if flt != "" && !strings.Contains(ob.Name, flt) {
 				continue
@@ -320,7 +362,17 @@ func (e *Engine) cmdCheck(prop, tier, evid, known, replayDir string, replay bool
 	var unk []*Obligation
 	for _, ob := range all {
 		if ob.Status == "unknown" {
-			unk = append(unk, ob)
+			// an obligation recorded as a known finding of this property has had its full first attempt; a longer
+			// second one only delays the KNOWN-FINDING line (were it to prove at all, the entry would be stale)
+			listed := false
+			for _, f := range findings {
+				if f.Kind == "finding" && f.Property == prop && f.Region == "" && (baseName(ob.Name) == f.Obligation || ob.Name == f.Obligation) {
+					listed = true
+				}
+			}
+			if !listed {
+				unk = append(unk, ob)
+			}
 		}
 	}
 	if len(unk) > 0 && len(unk) <= 40 {
@@ -551,4 +603,13 @@ func nonNil(xs []string) []string {
 		return []string{}
 	}
 	return xs
+}
+
+func sortedFuncNames(m map[string]*ssa.Function) []string {
+	var out []string
+	for k := range m {
+		out = append(out, k)
+	}
+	sort.Strings(out)
+	return out
 }
